@@ -23,6 +23,26 @@ THEOREMS = [
     "C12_disconnect_unconnected_noop",
     "C12_node_disconnect_clean",
     "C12_connect_idempotent",
+    "C12_step_current",
+    "C12_history_current",
+    "C12_unguarded_is_atomic",
+    "C12_disconnect_half_iff",
+    "C12_disconnect_torn_state",
+    "C12_entry_refused_noop",
+    "C12_connect_guarded_atomic",
+    "C12_disconnect_torn_witness",
+    "C12_safe_protocol_history",
+    "C12_safe_protocol_refused_noop",
+    "C12_owner_disconnect_clean",
+    "C12_owner_disconnect_exact",
+    "C12_owner_not_connected_after",
+    "C12_owner_disconnect_report",
+    "C12_disconnect_all_report",
+    "C12_copy_connections_refused_noop",
+    "C12_copy_io_refused_noop",
+    "C12_copy_io_soft_never_refuses",
+    "C12_pinned_copy_refused_partial",
+    "C12_pinned_copy_witness",
 ]
 RULE = (
     "seeded editing histories over 13 owners (2 workflows with IO maps, macro with body, leaf nodes of 11 "
@@ -325,7 +345,44 @@ _POSITIONS = [("i", "inputs"), ("b", "inputs"), ("oi", "outputs"), ("ob", "outpu
               ("failed", "sout"), ("xin", "sin"), ("xout", "sout")]
 
 
+def _gen_copy_chan(rng, tier):
+    """channel level: a source channel with 2-5 partners of mixed acceptability for the receiving channel, in every
+    order; the receiver already holds some of them and some unrelated ones; then `copy_connections`"""
+    g = _G(rng, nonstrict=[])
+    lay = g.lay
+    side = rng.choice(["inputs", "inputs", "outputs"])
+    if side == "inputs":
+        # the source accepts everything (non-strict input), the receiver is a strictly hinted input
+        recv = rng.choice([c for c in lay.by_kind["inputs"] if lay.rows[c][3] is not None])
+        src = rng.choice([c for c in lay.by_kind["inputs"] if lay.rows[c][0] != lay.rows[recv][0]])
+        g.nonstrict = [src]
+    else:
+        # the source is an unhinted output, the receiver a hinted one: inputs of another hint refuse it
+        recv = rng.choice([c for c in lay.by_kind["outputs"] if lay.rows[c][3] is not None])
+        src = rng.choice([c for c in lay.by_kind["outputs"] if lay.rows[c][3] is None
+                          and lay.rows[c][0] != lay.rows[recv][0]])
+    pool = [b for b in g.conj_of(src) if lay.rows[b][0] not in (lay.rows[src][0], lay.rows[recv][0])]
+    partners = rng.sample(pool, rng.randint(2, 5))
+    for b in partners:
+        g.connect_pair(src, b)
+    for b in rng.sample(partners, rng.randint(0, 2)):       # held already (refused ones simply stay away)
+        g.connect_pair(recv, b)
+    for _ in range(rng.randint(0, 2)):                       # unrelated
+        g.connect_pair(recv, rng.choice(pool))
+    for _ in range(rng.randint(0, 1)):
+        g.state_op()
+    g.ops.append(["copyconns", recv, src])
+    g.ops.append(["query", lay.rows[recv][0]])
+    if rng.random() < 0.5:
+        g.ops.append(["copyconns", src, recv])
+    for _ in range(rng.randint(0, 3)):
+        g.any_op()
+    return g.case("copy")
+
+
 def _gen_copy(rng, tier):
+    if rng.random() < 0.3:
+        return _gen_copy_chan(rng, tier)
     """a source node with connections in chosen panel positions, a receiver of a chosen interface with
     chosen pre-existing connections, then copy_io / copy_connections / replace_child"""
     cands = [rng.choice(CAND_CLASSES), rng.choice(CAND_CLASSES)]
@@ -410,8 +467,14 @@ def _gen_running(rng, tier):
             g.ops.append(["replace", rng.choice([o for o in range(2, N_OBJ) if o != busy]), rng.choice(CANDS)])
         elif r < 0.86:
             g.connect(a=c)
-        elif r < 0.92:
+        elif r < 0.89:
             g.ops.append(["remove", busy])
+        elif r < 0.92:
+            twin = rng.choice(lay.by_kind[lay.rows[c][1]])
+            g.ops.append(["copyconns", c, twin] if rng.random() < 0.5 else ["copyconns", twin, c])
+        elif r < 0.95:
+            g.ops.append(rng.choice([["copyio", "pub", rng.choice(CANDS), busy], ["copyio", "hard", busy, rng.randrange(2, N_OBJ)],
+                                     ["replace", busy, rng.choice(CANDS)]]))
         else:
             g.any_op()
     if rng.random() < 0.7:
@@ -427,36 +490,66 @@ def _gen_inject(rng, tier):
     `Channel.disconnect` against the step-by-step model; the oracle does not judge these cases."""
     g = _G(rng, nonstrict=[], maps={"0": {"inputs": {}, "outputs": {}}, "1": {"inputs": {}, "outputs": {}}})
     g.wire_some(rng.randint(4, 10))
+
+    def wired():
+        cs = [x for op in g.ops if op[0] == "connect" for x in op[2:]]
+        return rng.choice(cs) if cs and rng.random() < 0.85 else rng.choice(g.ids)
+
     for _ in range(rng.randint(4, 14)):
         r = rng.random()
         if r < 0.25:
-            g.ops.append(["lock", rng.choice(g.ids)])
+            g.ops.append(["lock", wired()])
         elif r < 0.32:
-            g.ops.append(["unlock", rng.choice(g.ids)])
-        elif r < 0.5:
-            g.connect(k=1)
+            g.ops.append(["unlock", wired()])
+        elif r < 0.45:
+            g.connect(a=wired(), k=1)
             g.ops[-1][1] = "method"
         elif r < 0.7:
-            a = rng.choice(g.ids)
-            g.ops.append(["disconnect", a, *[rng.choice(g.conj_of(a)) for _ in range(rng.choice([1, 2]))]])
+            a = wired()
+            others = [x for op in g.ops if op[0] == "connect" and a in op[2:] for x in op[2:] if x != a]
+            g.ops.append(["disconnect", a, *[rng.choice(others) if others and rng.random() < 0.8
+                                             else rng.choice(g.conj_of(a)) for _ in range(rng.choice([1, 2]))]])
         elif r < 0.8:
-            g.ops.append(["disconnectall", rng.choice(g.ids)])
+            g.ops.append(["disconnectall", wired()])
         elif r < 0.93:
-            g.ops.append(["odisc", rng.randrange(2, N_OBJ), rng.choice(["inputs", "outputs", "signals", "node"])])
+            g.ops.append(["odisc", g.lay.rows[wired()][0], rng.choice(["inputs", "outputs", "signals", "node"])])
         else:
-            g.ops.append(["remove", rng.randrange(2, N_OBJ)])
+            g.ops.append(["remove", max(2, g.lay.rows[wired()][0])])
     c = g.case("inject")
     c["inject"] = True
     return c
 
 
+def _gen_exhaustive(rng):
+    """every history of length 3 (and a sample of length 4) over a small alphabet on four data channels, one
+    signal pair, one owner-level disconnect and one removal"""
+    import itertools
+
+    lay = Layout(["TA", "TA"])
+    ai, bo, ds, pi = (lay.cid("a", "inputs", "i"), lay.cid("b", "outputs", "oi"), lay.cid("d", "outputs", "os"),
+                      lay.cid("p", "inputs", "i"))
+    ran, run = lay.cid("b", "sout", "ran"), lay.cid("a", "sin", "run")
+    alphabet = [["connect", "method", ai, bo], ["connect", "method", ai, ds], ["connect", "method", bo, pi, ai],
+                ["connect", "rshift", ran, run], ["disconnect", ai, bo], ["disconnect", bo, ai, pi],
+                ["disconnectall", bo], ["copyconns", pi, ai], ["copyio", "hard", 10, 2], ["odisc", 2, "node"],
+                ["odisc", 0, "node"], ["remove", 3]]
+    hist = list(itertools.product(range(len(alphabet)), repeat=3))
+    hist += rng.sample(list(itertools.product(range(len(alphabet)), repeat=4)), 1500)
+    for h in hist:
+        yield {"family": "exhaustive", "cands": ["TA", "TA"], "maps": {"0": {"inputs": {"a__i": "feed"}, "outputs": {}},
+                                                                      "1": {"inputs": {}, "outputs": {}}},
+               "nonstrict": [], "ops": [list(alphabet[i]) for i in h]}
+
+
 def gen_cases(rng, tier):
     quick = tier == "quick"
     for fam, n in ((_gen_general, 160 if quick else 2500), (_gen_owner, 70 if quick else 900),
-                   (_gen_copy, 110 if quick else 1500), (_gen_running, 70 if quick else 900),
-                   (_gen_inject, 40 if quick else 400)):
+                   (_gen_copy, 130 if quick else 1800), (_gen_running, 70 if quick else 900),
+                   (_gen_inject, 60 if quick else 600)):
         for _ in range(n):
             yield fam(rng, tier)
+    if not quick:
+        yield from _gen_exhaustive(rng)
     # malformed stream: channel ids / owner ids / keywords outside the table are refused by harness and driver alike
     g = _G(rng)
     g.ops = [["connect", "method", 0, 10 ** 6], ["odisc", 99, "node"], ["frobnicate", 1], ["connect", "method", 3, 14]]
@@ -908,6 +1001,8 @@ def run_impl(case):
         snap = snapshot()
         if snap != prev:
             changed += 1
+            if res == "locked":
+                st["torn"] = True
         st.update({"res": res, "modelled": modelled, "snap": snap, "rep": rep, "flags": fl, "parents": parents(),
                    "runstate": runstate()})
         states.append(st)
@@ -916,7 +1011,7 @@ def run_impl(case):
     # nothing may stay outstanding
     try:
         guarded(sched.drain)
-    except BaseException:  # noqa: BLE001
+    except (Exception, execsim.Stuck):  # noqa: BLE001
         pass
     stats = {f"op:{k}": kinds.count(k) for k in set(kinds)}
     stats[f"family:{case.get('family', '?')}"] = 1
@@ -931,6 +1026,10 @@ def run_impl(case):
                 stats["edit-while-failed"] = stats.get("edit-while-failed", 0) + 1
         if s["op"][0] in ("copyio", "replace") and s["res"] not in ("ok", "skip"):
             stats["copy-refused"] = stats.get("copy-refused", 0) + 1
+        if s["res"] == "locked":
+            stats["injected-refusal"] = stats.get("injected-refusal", 0) + 1
+            if s.get("torn"):
+                stats["injected-refusal-between-halves"] = stats.get("injected-refusal-between-halves", 0) + 1
         if s["op"][0] == "odisc" and s["rep"]:
             stats[f"odisc-destroyed:{OBJS[s['op'][1]][0]}"] = stats.get(f"odisc-destroyed:{OBJS[s['op'][1]][0]}", 0) + 1
     obs = []
